@@ -128,6 +128,10 @@ private:
             }
         }
 
+        // Restore the shift given by the user, so that the operator behaves as before
+        // and a later init()/compute() iterates with the intended operator
+        m_op.set_shift(m_sigmar, m_sigmai);
+
         SPECTRA_VERIF_EVENT("BackDone", this, 0);
         Base::sort_ritzpair(sort_rule);
     }
